@@ -2845,7 +2845,7 @@ class Basis(Array):
         raise NotImplementedError('{} must implement f_dofs_coeffs'.format(self.__class__.__name__))
 
     def __getitem__(self, index: Any) -> Array:
-        if numeric.isintarray(index) and index.ndim == 1 and numpy.all(numpy.greater(numpy.diff(index), 0)):
+        if numeric.isintarray(index) and index.ndim == 1 and numpy.all(numpy.greater(numpy.diff(index), 0)) and (not len(index) or index[0] >= 0 and index[-1] < self.ndofs):
             return MaskedBasis(self, index)
         elif numeric.isboolarray(index) and index.shape == (self.ndofs,):
             return MaskedBasis(self, numpy.where(index)[0])
@@ -2853,8 +2853,10 @@ class Basis(Array):
             start, stop, step = index.indices(self.ndofs)
             if step == 1 and start == 0 and stop == self.ndofs:
                 return self
-            else:
+            elif step > 0:
                 return MaskedBasis(self, numpy.arange(start, stop, step))
+            else:
+                return super().__getitem__(index)
         else:
             return super().__getitem__(index)
 
